@@ -11,24 +11,30 @@
         every hop follows a working link to the adjacent chip in that direction and every destination is a
         node.  Rests on the theorems of C11 (the vector has as many hops as the graph distance; the
         longest-dimension-first walk has that length) and on the cut-at-the-LAST-intersection lemma.
-   * U  C03_route_valid_partial: route() for one net, on ANY machine with ANY faults, returns a tree that
-        satisfies the property's whole sentence (ValidTree: root, no chip twice, live adjacent hops, exactly
-        the sinks' leaves) whenever the tree of ner_net touches no dead link, i.e. whenever route() does not
-        call avoid_dead_links.  PARTIAL: for nets whose tree does touch a dead chip or link the statement is
-        not proved for all inputs -- missing are (i) A*'s completeness on every connected fault map and (ii)
-        that the repairs compose in the (hash) iteration order of the set broken_links when a later detour
-        crosses an earlier one; there the property is certified per output by C03_check_tree_sound (V),
-        evaluated inside Coq on every real route() result, and the connectivity clause by
-        C03_check_connected_sound.
-   * U  C03_copy_disconnect_inv: the first half of avoid_dead_links, for every machine and tree.
-   * U  C03_repair_step_tree_partial: one repair step whose A* detour runs over new ground only.
+   * U  C03_route_valid: route() for one net on EVERY machine (any dead chips, any dead links, also in one
+        direction only), every placement on working chips, allocation, constraint list, radius, stream of
+        draws and every iteration order of the set broken_links: the model returns a tree that satisfies the
+        property's whole sentence (ValidTree), or the documented error MachineHasDisconnectedSubregion -- and
+        the latter only on a machine whose working chips cannot all reach each other.  It never returns any
+        other error and never exhausts its fuel.  C03_route_connected_succeeds: on a connected machine it
+        succeeds.  Built from
+          - C03_ner_net_tree (above),
+          - C03_copy_disconnect_inv: copy_and_disconnect_tree, every machine and tree,
+          - C03_a_star_spec: A* terminates, a returned path is a chain of working hops from a source to the sink
+            whose interior avoids the sources, and failure means no source reaches the sink (completeness),
+          - C03_repair_step_tree: one splice, the detour running over new chips and/or through nodes of the
+            orphaned subtree (re-parenting, parent searched among all nodes as since c75fe85),
+          - C03_avoid_dead_links_tree: their composition over broken_links in any order.
+   * U  C03_route_valid_no_repair / C03_route_valid_fault_free: the branch without repair, kept as corollaries.
    * R  C03_repair_duplicate_child_orig_refuted: the repair step of the code as found (before c75fe85)
         attached a chip twice; witness replayed on the real code.
+   The validators stay in the check: V certifies every real output of route() independently of the model.
    The model (Model/Route.v) is compared with rig on every run: exact tree equality for ner_net and for the
    final tree of route(), with the random module scripted. *)
 From Coq Require Import ZArith List Bool.
 Require Import Rig.Model.Base Rig.Model.Route Rig.Spec.Route Rig.Proofs.Route Rig.Proofs.RouteMain
-        Rig.Proofs.RouteFull Rig.Proofs.RouteCopy Rig.Proofs.RouteRepair.
+        Rig.Proofs.RouteFull Rig.Proofs.RouteCopy Rig.Proofs.RouteRepair Rig.Proofs.RouteAstar
+        Rig.Proofs.RouteSever Rig.Proofs.RouteSplice Rig.Proofs.RouteAvoid Rig.Proofs.RouteValid.
 Import ListNotations.
 Open Scope Z_scope.
 
@@ -60,16 +66,9 @@ Theorem C03_ner_net_tree :
       /\ (forall x, In x (chips t) <-> In x route).
 Proof. exact ner_net_tree. Qed.
 
-(* U-partial (see the header): the full statement is
-
-     forall m (any dead chips / links) net placements allocations constraints radius stream,
-       placements on working chips ->
-       (Connected m -> exists t, route_net ... = Ok t /\ ValidTree m src (sink_reqs ...) t) /\
-       (route_net ... = Failed 0 -> ~ Connected m) /\ route_net ... <> OtherError.
-
-   Proved: the branch in which route() does not repair (hypothesis on has_dead_links below), for every
-   machine.  [dests] is the iteration order of set(placements[sink]); [order] that of broken_links. *)
-Theorem C03_route_valid_partial :
+(* U: the branch of route() that does not call avoid_dead_links, on any machine ([dests] is the iteration order
+   of set(placements[sink]); [order] that of broken_links) *)
+Theorem C03_route_valid_no_repair :
   forall m source sinks dests pl cons allocs radius s order src,
     1 <= rm_w m -> 1 <= rm_h m ->
     zassoc source pl = Some src -> in_range (rm_w m) (rm_h m) src ->
@@ -111,33 +110,96 @@ Theorem C03_copy_disconnect_inv :
       /\ (forall t p r c, In t f -> In (p, r, c) (tree_hops t) -> exists l, r = Some l /\ hop_ok m p l c)
       /\ (forall p c, In (p, c) br ->
                       In p (forest_chips f) /\ exists t, In t (tl f) /\ root_chip t = Some c)
-      /\ length f = S (length br).
+      /\ length f = S (length br)
+      /\ NoDup (map snd br)
+      /\ (exists t0 f0, f = t0 :: f0 /\ root_chip t0 = root_chip root).
 Proof. exact copy_disconnect_inv. Qed.
 
-(* U-partial: one repair step (the body of the loop over broken_links).  Full statement: for every forest
-   without a repeated chip whose edges are working links, every orphaned root [child] and EVERY path A* can
-   return (working links from a node outside the orphaned tree, through chips that are either new or nodes
-   of the orphaned tree, to [child]), splice returns a forest with one tree fewer, no repeated chip, all
-   edges working links.  Proved: the case in which the detour runs over new ground only (no chip of the
-   path is in the forest); it holds for whatever parent search the code uses ([sev] is arbitrary).
-   Missing: the re-parenting case (the detour crosses the orphaned tree itself), where the code as found was
-   wrong (C03_repair_duplicate_child_orig_refuted) and the repaired code is certified per output by V. *)
-Theorem C03_repair_step_tree_partial :
-  forall (sev : chip -> chip -> list rtree -> list rtree) m child cc path last ld f ct f',
-    NoDup (forest_chips f) ->
-    (forall t p r c, In t f -> In (p, r, c) (tree_hops t) -> exists l, r = Some l /\ hop_ok m p l c) ->
-    take_root child f = Some (ct, f') -> root_chip ct = Some child ->
-    In last (forest_chips f') ->
+(* U: a_star.  For every machine, working sink that is not a source: no error other than the documented one and
+   no exhausted fuel; a returned path starts at a source, is a chain of working hops to the sink without a
+   repeated chip, its interior avoids the sources and the sink; failure means that no source reaches the sink
+   over working links. *)
+Theorem C03_a_star_spec :
+  forall sink hsrc sources m wrap,
+    1 <= rm_w m -> 1 <= rm_h m -> working_chip m sink -> ~ In sink sources ->
+    (exists path, a_star sink hsrc sources m wrap = Ok path /\ path_good m sink sources path) \/
+    (a_star sink hsrc sources m wrap = Failed 0 /\ forall s, In s sources -> ~ reach m s sink).
+Proof. exact a_star_spec. Qed.
+
+(* U: one repair step (the loop `for direction, (x, y) in path[1:]` and the final attachment), the detour
+   running over new chips and through nodes of the orphaned subtree alike.  [A] lists the ancestors of the
+   chip the detour has reached (Hstar: the reflexive-transitive closure of the parent relation of the forest);
+   cnt counts occurrences of a chip among the nodes of the forest. *)
+Theorem C03_repair_step_tree :
+  forall m child cc path last ld f A,
+    (forall x, (cnt x (forest_chips f) <= 1)%nat) ->
+    forest_hops_ok m f ->
+    (exists ct f', take_root child f = Some (ct, f') /\ root_chip ct = Some child) ->
+    In last (forest_chips f) ->
+    (forall x, Hstar (fhops f) x last -> In x A) ->
+    (forall a, In a A -> a <> child /\ ~ In a (map snd path)) ->
+    In child cc ->
     NoDup (map snd path) ->
-    (forall q, In q (map snd path) -> ~ In q (forest_chips f) /\ ~ In q cc) ->
+    (forall q, In q (map snd path) ->
+               (~ In q (forest_chips f) /\ ~ In q cc) \/ (In q cc /\ In q (forest_chips f) /\ q <> child)) ->
+    (forall t r, In t f -> root_chip t = Some r -> In r cc -> r = child) ->
     detour_ok m last ld path child ->
     exists f2,
-      splice_gen sev child cc last ld path f = Ok f2
-      /\ NoDup (forest_chips f2)
-      /\ (forall t p r c, In t f2 -> In (p, r, c) (tree_hops t) -> exists l, r = Some l /\ hop_ok m p l c)
+      splice_gen sever_now child cc last ld path f = Ok f2
+      /\ (forall x, (cnt x (forest_chips f2) <= 1)%nat)
+      /\ forest_hops_ok m f2
       /\ (forall x, In x (forest_chips f2) <-> In x (forest_chips f) \/ In x (map snd path))
-      /\ S (length f2) = length f.
-Proof. exact repair_step_tree. Qed.
+      /\ S (length f2) = length f
+      /\ (forall ct f', take_root child f = Some (ct, f') -> map root_chip f2 = map root_chip f').
+Proof. exact splice_ok. Qed.
+
+(* U: avoid_dead_links.  For every machine, every tree of nodes without a repeated chip whose root is a working
+   chip, and every duplicate-free enumeration [order] of broken_links: one tree with the same root, no chip
+   twice, every edge a working link between adjacent chips, only working chips, containing every working chip
+   of the input -- or the documented error, and then the machine is not connected. *)
+Theorem C03_avoid_dead_links_tree :
+  forall m root wrap order r0,
+    1 <= rm_w m -> 1 <= rm_h m ->
+    NoDup (chips root) -> leafless root -> root_chip root = Some r0 -> working_chip m r0 ->
+    order_ok root m order ->
+    (exists t, avoid_dead_links root m wrap order = Ok [t]
+               /\ root_chip t = Some r0 /\ NoDup (chips t)
+               /\ (forall p r c, In (p, r, c) (tree_hops t) -> exists l, r = Some l /\ hop_ok m p l c)
+               /\ (forall x, In x (chips t) -> working_chip m x)
+               /\ leafless t
+               /\ (forall x, In x (chips root) -> working_chip m x -> In x (chips t))) \/
+    (avoid_dead_links root m wrap order = Failed 0 /\ ~ Connected m).
+Proof. exact avoid_dead_links_tree. Qed.
+
+(* U: route() for one net -- the property's sentence for all inputs of the model.  Hypotheses = the domain of
+   the code: placements of the source and of every sink on working chips ([dests] enumerates the sinks' chips),
+   core allocations within 0..18, draws in [0, 2^53), [order] an enumeration of broken_links. *)
+Theorem C03_route_valid :
+  forall m source sinks dests pl cons allocs radius s order src,
+    1 <= rm_w m -> 1 <= rm_h m ->
+    zassoc source pl = Some src -> working_chip m src ->
+    Forall (working_chip m) dests -> stream_ok s ->
+    (forall v, In v sinks -> exists c, zassoc v pl = Some c /\ In c dests) ->
+    (forall v a b, In v sinks -> zassoc v allocs = Some (a, b) -> 0 <= a /\ b <= 18) ->
+    order_ok_route m src dests radius s order ->
+    (exists t, route_net m source sinks dests pl cons allocs radius s order = Ok t /\
+               ValidTree m src (sink_reqs sinks pl cons allocs) t) \/
+    (route_net m source sinks dests pl cons allocs radius s order = Failed 0 /\ ~ Connected m).
+Proof. exact route_valid. Qed.
+
+(* "If all working chips can reach each other over working links the router succeeds" *)
+Theorem C03_route_connected_succeeds :
+  forall m source sinks dests pl cons allocs radius s order src,
+    1 <= rm_w m -> 1 <= rm_h m ->
+    zassoc source pl = Some src -> working_chip m src ->
+    Forall (working_chip m) dests -> stream_ok s ->
+    (forall v, In v sinks -> exists c, zassoc v pl = Some c /\ In c dests) ->
+    (forall v a b, In v sinks -> zassoc v allocs = Some (a, b) -> 0 <= a /\ b <= 18) ->
+    order_ok_route m src dests radius s order ->
+    Connected m ->
+    exists t, route_net m source sinks dests pl cons allocs radius s order = Ok t /\
+              ValidTree m src (sink_reqs sinks pl cons allocs) t.
+Proof. exact route_connected_succeeds. Qed.
 
 (* R: the repair of the code as found (model avoid_dead_links_orig) on a connected 3 x 4 mesh with five
    further dead links: the tree of ner_net is repaired into a tree that lists chip (1, 0) twice; the
@@ -173,11 +235,22 @@ Example C03_route_partial_instance :
      = [(1, (1, 1), [Some 7; Some 8]); (1, (1, 1), [Some 7; Some 8])].
 Proof. exact ex_route_no_repair. Qed.
 
-Example C03_repair_step_instance :
-  splice_gen sever_now (2, 0) [(2, 0)] (0, 0) 0 [(0, (1, 0))] [RNode (0, 0) []; RNode (2, 0) []]
-  = Ok [RNode (0, 0) [(Some 0, RNode (1, 0) [(Some 0, RNode (2, 0) [])])]]
-  /\ detour_ok (perfect 3 1) (0, 0) 0 [(0, (1, 0))] (2, 0).
-Proof. exact ex_repair_step. Qed.
+(* C03_route_valid's hypotheses hold on a machine that needs a repair (the machine of the refutation, with
+   the logged order of broken_links); the result is accepted by the validator.  And a failure instance. *)
+Example C03_route_repair_instance :
+  order_ok_route ex_dup_machine (0, 3) [(2, 0)] 20 [0] ex_dup_order /\
+  working_chip ex_dup_machine (0, 3) /\ working_chip ex_dup_machine (2, 0) /\
+  exists t, route_net ex_dup_machine 0 [1] [(2, 0)] [(0, (0, 3)); (1, (2, 0))] [] [(1, (1, 2))] 20 [0] ex_dup_order = Ok t
+            /\ check_tree ex_dup_machine (0, 3) (sink_reqs [1] [(0, (0, 3)); (1, (2, 0))] [] [(1, (1, 2))]) t = true
+            /\ has_dead_links ex_dup_machine
+                 (RNode (0, 3) [(Some 5, RNode (0, 2) [(Some 5, RNode (0, 1) [(Some 5, RNode (0, 0)
+                    [(Some 0, RNode (1, 0) [(Some 0, RNode (2, 0) [])])])])])]) = true.
+Proof. exact ex_route_repair. Qed.
+
+Example C03_route_failure_instance :
+  route_net ex_cut_machine 0 [1] [(1, 0)] [(0, (0, 0)); (1, (1, 0))] [] [] 20 [] None = Failed 0
+  /\ check_connected ex_cut_machine = false.
+Proof. exact ex_route_failure. Qed.
 
 Example C03_mesh_instance : fault_free ex_mesh false.
 Proof. exact ex_mesh_fault_free. Qed.
